@@ -948,6 +948,14 @@ pub fn precond_case(
     let exp_nm = oracle::not_modified(inm_c, if has_ims { Some(p.ims) } else { None }, mt);
     match got {
         Ok((pf, nm)) => {
+            // C14: a client that echoes the served Last-Modified (the modification time truncated to
+            // the second) gets the cache-friendly answer
+            if p.has_mtime && has_ius && im.is_none() && p.ius == p.m_secs {
+                assert!(!pf, "C14: If-Unmodified-Since with the served Last-Modified answered 412");
+            }
+            if p.has_mtime && has_ims && inm.is_none() && p.ims == p.m_secs && !exp_pf {
+                assert!(nm, "C14: If-Modified-Since with the served Last-Modified not answered 304");
+            }
             assert!(pf == exp_pf, "C04: 412 decision deviates from RFC 7232 (If-Match strong comparison; If-Unmodified-Since only without If-Match, against the modification second)");
             assert!(nm == exp_nm, "C04: 304 decision deviates from RFC 7232 (If-None-Match weak comparison; If-Modified-Since only without If-None-Match, against the modification second)");
         }
